@@ -167,7 +167,11 @@ func (x *Explorer) havocCall(in ssa.Instruction, ev *Event) {
 	if len(fields) == 0 && len(globals) == 0 && len(allocs) == 0 && !index && !deref {
 		return
 	}
-	for id, addr := range x.cells {
+	for _, id := range x.liveIDs() {
+		addr := x.cells[id]
+		if addr == nil {
+			continue
+		}
 		if _, live := x.mem[id]; !live {
 			continue
 		}
@@ -204,7 +208,11 @@ func (x *Explorer) builtin(fr *frame, in ssa.Instruction, ev *Event, resType typ
 		// destination content becomes unknown
 		dst := args[0]
 		root := addrRoot(dst)
-		for id, a := range x.cells {
+		for _, id := range x.liveIDs() {
+			a := x.cells[id]
+			if a == nil {
+				continue
+			}
 			if _, live := x.mem[id]; !live {
 				continue
 			}
